@@ -397,7 +397,7 @@ def carried_state_rule(rep, prog, cfg):
             rep.check(emptied, rule, "%s/%s: carried state `%s` is emptied in the loop" % (cfg, rn, b.local_name(l)), b.loc(b.span),
                       "%s sets `%s` to Some(..) inside its decoding loop but never takes it out / resets it there (no Option::take, mem::take, "
                       "`= None`): after the first pair the decoder never returns to the 'first half expected' state" % (rn, b.local_name(l)))
-    rep.floor(rule, cfg + "/loop-carried Option state in decoders", n, 3)
+    rep.floor(rule, cfg + "/loop-carried Option state in decoders", n, 1)
 
 
 def sticker_rule(rep, prog, cfg):
